@@ -8,6 +8,7 @@ import (
 	"slices"
 
 	"cuelabs.dev/go/oci/ociregistry"
+	"cuelabs.dev/go/oci/ociregistry/ocimem"
 
 	"verifsim/core"
 	"verifsim/reg"
@@ -35,6 +36,159 @@ func init() {
 	}{{"mem+rec+http1", 4}, {"mem+rec+http1+debug", 1}, {"mem+rec+http2", 2}, {"mem+rec+debug+http1", 1}} {
 		k := k
 		register(&core.Scenario{Name: "c03-" + k.kind, Property: "C03", Weight: k.w, Run: func(env *core.Env) { c03(env, k.kind) }})
+	}
+	register(&core.Scenario{Name: "c03-altalgo-content", Property: "C03", Weight: 1, Run: c03altalgo})
+}
+
+// c03altalgo: content addressed by sha384 / sha512 digests (the in-memory registry
+// stores sha256 only, so the backend here is a small table behind
+// ociregistry.Funcs). Every read through the HTTP hop(s) must give what the same
+// read gives directly.
+func c03altalgo(env *core.Env) {
+	c := env.C
+	ctx := context.Background()
+	type item struct {
+		data     []byte
+		desc     ociregistry.Descriptor
+		manifest bool
+	}
+	repo := repoNames[c.Int("repo", len(repoNames))]
+	items := map[ociregistry.Digest]*item{}
+	tags := map[string]ociregistry.Digest{}
+	var order []ociregistry.Digest
+	for i, n := 0, c.Range("nitems", 1, 5); i < n; i++ {
+		algo := []string{"sha256", "sha384", "sha512"}[c.Int("algo", 3)]
+		it := &item{manifest: c.Bool("manifest", 1, 2)}
+		if it.manifest {
+			it.data = []byte(fmt.Sprintf(`{"verif":%d,"pad":%q}`, c.Int("uniq", 1<<20), string(c.Bytes("pad", []int{0, 10, 200}[c.Int("padlen", 3)]))))
+			it.desc.MediaType = "application/x-verif.opaque"
+		} else {
+			it.data = c.Bytes("blob", []int{0, 1, 7, 300, 70000}[c.Int("bloblen", 5)])
+			it.desc.MediaType = "application/octet-stream"
+		}
+		it.desc.Digest, it.desc.Size = reg.Sum(algo, it.data), int64(len(it.data))
+		items[it.desc.Digest] = it
+		order = append(order, it.desc.Digest)
+		if it.manifest && c.Bool("tagged", 1, 2) {
+			tags[tagNames[c.Int("tag", len(tagNames))]] = it.desc.Digest
+		}
+	}
+	lookup := func(rp string, d ociregistry.Digest, manifest bool) (*item, error) {
+		if rp != repo {
+			return nil, ociregistry.ErrNameUnknown
+		}
+		it := items[d]
+		if it == nil || it.manifest != manifest {
+			if manifest {
+				return nil, ociregistry.ErrManifestUnknown
+			}
+			return nil, ociregistry.ErrBlobUnknown
+		}
+		return it, nil
+	}
+	open := func(it *item, err error) (ociregistry.BlobReader, error) {
+		if err != nil {
+			return nil, err
+		}
+		return ocimem.NewBytesReader(it.data, it.desc), nil
+	}
+	descOf := func(it *item, err error) (ociregistry.Descriptor, error) {
+		if err != nil {
+			return ociregistry.Descriptor{}, err
+		}
+		return it.desc, nil
+	}
+	byTag := func(rp, tag string) (*item, error) {
+		d, ok := tags[tag]
+		if rp != repo {
+			return nil, ociregistry.ErrNameUnknown
+		}
+		if !ok {
+			return nil, ociregistry.ErrManifestUnknown
+		}
+		return items[d], nil
+	}
+	backend := &ociregistry.Funcs{
+		GetBlob_: func(ctx context.Context, rp string, d ociregistry.Digest) (ociregistry.BlobReader, error) {
+			return open(lookup(rp, d, false))
+		},
+		GetBlobRange_: func(ctx context.Context, rp string, d ociregistry.Digest, o0, o1 int64) (ociregistry.BlobReader, error) {
+			it, err := lookup(rp, d, false)
+			if err != nil {
+				return nil, err
+			}
+			if o1 < 0 || o1 > it.desc.Size {
+				o1 = it.desc.Size
+			}
+			if o0 < 0 || o0 > o1 {
+				return nil, fmt.Errorf("invalid range")
+			}
+			return ocimem.NewBytesReader(it.data[o0:o1], it.desc), nil
+		},
+		GetManifest_: func(ctx context.Context, rp string, d ociregistry.Digest) (ociregistry.BlobReader, error) {
+			return open(lookup(rp, d, true))
+		},
+		GetTag_:          func(ctx context.Context, rp, tag string) (ociregistry.BlobReader, error) { return open(byTag(rp, tag)) },
+		ResolveBlob_:     func(ctx context.Context, rp string, d ociregistry.Digest) (ociregistry.Descriptor, error) { return descOf(lookup(rp, d, false)) },
+		ResolveManifest_: func(ctx context.Context, rp string, d ociregistry.Digest) (ociregistry.Descriptor, error) { return descOf(lookup(rp, d, true)) },
+		ResolveTag_:      func(ctx context.Context, rp, tag string) (ociregistry.Descriptor, error) { return descOf(byTag(rp, tag)) },
+	}
+	o := &stackOpts{OneByte: c.Bool("onebyte", 1, 10), EOFData: c.Bool("eofdata", 1, 4)}
+	o.Server.OmitDigestFromTagGetResponse = c.Bool("omitdigest", 1, 3)
+	var viaHTTP ociregistry.Interface = backend
+	hops := c.Range("hops", 1, 2)
+	for i := 0; i < hops; i++ {
+		viaHTTP, _ = httpHop(env, viaHTTP, o, fmt.Sprintf("hop%d", i))
+	}
+	env.Sample("repo=%q items=%d tags=%d hops=%d omitdigest=%v", repo, len(items), len(tags), hops, o.Server.OmitDigestFromTagGetResponse)
+	for i, n := 0, c.Range("nreads", 3, 12); i < n; i++ {
+		d := order[c.Int("which", len(order))]
+		it := items[d]
+		op := &reg.Op{Repo: repo, Digest: d, StopAfter: -1, ContentFault: -1}
+		switch {
+		case it.manifest:
+			op.Kind = []reg.Kind{reg.GetManifest, reg.ResolveManifest, reg.GetTag, reg.ResolveTag}[c.Int("mkind", 4)]
+			if op.Kind == reg.GetTag || op.Kind == reg.ResolveTag {
+				op.Tag = tagNames[c.Int("rtag", len(tagNames))]
+			}
+		default:
+			op.Kind = []reg.Kind{reg.GetBlob, reg.ResolveBlob, reg.GetBlobRange}[c.Int("bkind", 3)]
+			if op.Kind == reg.GetBlobRange && len(it.data) == 0 {
+				op.Kind = reg.GetBlob // HTTP cannot express an empty range
+			}
+			if op.Kind == reg.GetBlobRange {
+				op.O0 = int64(c.Int("o0", len(it.data)))
+				op.O1 = []int64{-1, op.O0 + 1, it.desc.Size, it.desc.Size + 3}[c.Int("o1", 4)]
+			}
+		}
+		if c.Bool("smallreads", 1, 3) {
+			op.ReadSize = c.Range("readsize", 1, 9)
+		}
+		dres := reg.Exec(ctx, backend, op, nil)
+		hres := reg.Exec(ctx, viaHTTP, op, nil)
+		algo := string(d.Algorithm())
+		env.Op(op.Kind.String() + ":" + algo + ":" + reg.CodeOf(hres.Err))
+		env.Logf("%d %s\n    direct: %s\n    http:   %s", i, op, dres, hres)
+		class := func(k string) string { return "C03/altalgo/" + op.Kind.String() + "/" + k + "/" + algo }
+		if (dres.Err == nil) != (hres.Err == nil) {
+			env.Failf(class("outcome-differs"), "%s (%s content): directly %s, over %d HTTP hop(s) %s", op, algo, dres, hops, hres)
+		}
+		if dres.Err != nil {
+			continue
+		}
+		if (dres.ReadErr == nil) != (hres.ReadErr == nil) {
+			env.Failf(class("read-outcome-differs"), "%s (%s content): reading ended with %v directly and with %v over HTTP", op, algo, dres.ReadErr, hres.ReadErr)
+		}
+		if !bytes.Equal(dres.Data, hres.Data) {
+			env.Failf(class("bytes-differ"), "%s (%s content): %d bytes directly, %d other bytes over HTTP", op, algo, len(dres.Data), len(hres.Data))
+		}
+		if dres.Desc.Digest != hres.Desc.Digest || dres.Desc.Size != hres.Desc.Size || dres.Desc.MediaType != hres.Desc.MediaType {
+			// (a tag GET without a digest header leaves the client to compute one, which can
+			// only be the canonical algorithm's)
+			if !(o.Server.OmitDigestFromTagGetResponse && (op.Kind == reg.GetTag) && dres.Desc.Digest.Algorithm() != "sha256" && dres.Desc.Size == hres.Desc.Size && dres.Desc.MediaType == hres.Desc.MediaType) {
+				env.Failf(class("descriptor-differs"), "%s (%s content): descriptor %+v directly, %+v over HTTP", op, algo, dres.Desc, hres.Desc)
+			}
+		}
 	}
 }
 
